@@ -155,9 +155,10 @@ def gen_alpha(rng, m, n, nonneg=False):
             rows.append(r)
     if nonneg and [Fraction(0)] * n not in rows:
         rows[rng.randrange(m)] = [Fraction(0)] * n
-    if not nonneg and rng.random() < 0.06:
+    if not nonneg and rng.random() < 0.1:
         # the whole matrix at scale 2^-30: differences of exponents far below 1e-8 are differences
-        rows = [[v * Fraction(1, 2 ** 30) for v in r] for r in rows]
+        sc = Fraction(1, 2 ** rng.choice([30, 30, 45]))       # 2^-45 ~ 2.8e-14: no absolute threshold separates data from round-off
+        rows = [[v * sc for v in r] for r in rows]
     if nonneg == 'almost':
         # nonnegative with a zero row, except for ONE negative entry: the orthogonality-based cover reduction must not fire
         cand = [(i, j) for i in range(m) for j in range(n) if rows[i][j] > 0]
@@ -299,7 +300,9 @@ def build_dual(rng):
     cv = cl.Variable(shape=(2,), name='cvar')
     cvals = gen_c(rng, m, [cv[0], cv[1]]) if with_c else None
     settings = full_settings({'compact_dual': rng.random() < 0.6, 'presolve_trivial_age_cones': rng.random() < 0.25,
-                              'heuristic_reduction': rng.random() < 0.7, 'sum_age_force_equality': rng.random() < 0.5})
+                              'heuristic_reduction': rng.random() < 0.7, 'sum_age_force_equality': rng.random() < 0.5,
+                              # kernel_basis is an option of the PRIMAL cone: a dual cone compiles to the same rows with or without it
+                              'kernel_basis': rng.random() < 0.4})
     kwargs = {'settings': settings}
     if with_c:
         kwargs['c'] = Expression(cvals)
